@@ -27,6 +27,8 @@ type cnTxSpec struct {
 	Nonce    uint64 `json:"nonce"`
 	Fee      int64  `json:"fee"`
 	Gas      uint64 `json:"gas"`
+	Rotate   string `json:"rotate,omitempty"` // regnode: none | fresh:<role> | move:<from>><to> | swap:<a>:<b>
+	Node     string `json:"node,omitempty"`   // regnode: the node being registered (the signer may be someone else)
 	Validity string `json:"validity"` // ok | badnonce | futurenonce | lowgas | badsig | wrongchain | wrongdomain | malformed | replay
 }
 
@@ -139,16 +141,33 @@ func (n *cnNet) buildTx(spec *cnTxSpec, rng *rand.Rand) ([]byte, error) {
 		tx = staking.NewWithdrawTx(spec.Nonce, fee, &staking.Withdraw{From: to, Amount: qq(spec.Amount)})
 	case "regnode":
 		var idx int
-		fmt.Sscanf(spec.Signer, "N%d", &idx)
+		target := spec.Node
+		if target == "" {
+			target = spec.Signer
+		}
+		fmt.Sscanf(target, "N%d", &idx)
+		v := n.vals[idx]
+		saved := v.rot
+		if cand := rotateKeys(v.rot, spec.Rotate, rng); cand != nil {
+			v.rot = cand
+			n.pendingRot[spec] = cand
+		}
 		nd, err := n.nodeDescriptor(idx, uint64(spec.Amount), nil)
 		if err != nil {
+			v.rot = saved
 			return nil, err
 		}
-		sn, err := n.signNode(n.vals[idx], nd, registry.RegisterNodeSignatureContext)
+		sn, err := n.signNode(v, nd, registry.RegisterNodeSignatureContext)
+		v.rot = saved
 		if err != nil {
 			return nil, err
 		}
+		if spec.Validity == "missingsig" && len(sn.MultiSigned.Signatures) > 1 {
+			sn.MultiSigned.Signatures = sn.MultiSigned.Signatures[:len(sn.MultiSigned.Signatures)-1] // TLS key's signature dropped
+		}
 		tx = registry.NewRegisterNodeTx(spec.Nonce, fee, sn)
+	case "deregentity":
+		tx = registry.NewDeregisterEntityTx(spec.Nonce, fee)
 	case "unfreeze":
 		var idx int
 		fmt.Sscanf(spec.To, "N%d", &idx)
@@ -183,4 +202,43 @@ func (n *cnNet) buildTx(spec *cnTxSpec, rng *rand.Rand) ([]byte, error) {
 	st.Signature.PublicKey = acct.signer.Public()
 	copy(st.Signature.Signature[:], sig)
 	return cbor.Marshal(st), nil
+}
+
+// rotateKeys returns the candidate rotatable key set after the requested rotation (nil = unchanged).
+func rotateKeys(cur map[string]signature.Signer, how string, rng *rand.Rand) map[string]signature.Signer {
+	if how == "" || how == "none" {
+		return nil
+	}
+	fresh := func() signature.Signer {
+		s, err := memorySigner.NewFactory().Generate(signature.SignerNode, detRand{rng})
+		if err != nil {
+			panic(err)
+		}
+		return s
+	}
+	out := map[string]signature.Signer{"p2p": cur["p2p"], "vrf": cur["vrf"], "tls": cur["tls"]}
+	var a, b string
+	switch {
+	case len(how) > 6 && how[:6] == "fresh:":
+		out[how[6:]] = fresh()
+	case len(how) > 5 && how[:5] == "move:":
+		// move:<from>><to> : the key of role <from> becomes the key of role <to>, <from> gets a fresh key
+		parts := how[5:]
+		for i := 0; i < len(parts); i++ {
+			if parts[i] == '>' {
+				a, b = parts[:i], parts[i+1:]
+			}
+		}
+		out[b] = cur[a]
+		out[a] = fresh()
+	case len(how) > 5 && how[:5] == "swap:":
+		parts := how[5:]
+		for i := 0; i < len(parts); i++ {
+			if parts[i] == ':' {
+				a, b = parts[:i], parts[i+1:]
+			}
+		}
+		out[a], out[b] = cur[b], cur[a]
+	}
+	return out
 }
